@@ -1609,6 +1609,7 @@ class ktensor:
         [[5. 6.]
          [7. 8.]]
         """
+        assert 0 <= mode < self.ndims, "Mode must be in the range of self.ndims"
         for r in range(self.ncomponents):
             self.factor_matrices[mode][:, [r]] = (
                 self.factor_matrices[mode][:, [r]] * self.weights[r]
